@@ -304,8 +304,12 @@ def handle (o : Op) : Option String :=
       let M := sf[1]!
       let spec := hht1d e energy M (chunk M T fs) (chunk M T av)
       return s!"ok nb={e.length - 1} M={M} | {fmtMat spec}"
-  | "HOLO" => some <| Id.run do
+  | "HOLO" | "HOLOCOO" => some <| Id.run do
       -- | e1 | e2 | shape(infr) | shape(infr2) | shape(inam2) | infr | nan | infr2 | nan | inam2
+      -- HOLOCOO answers with the sparse entries `holoCoo` (one per sample: time row, folded column, weight)
+      -- instead of the unfolded array: the compact form for bin sets whose full output has ~10^5 cells.
+      -- By `holo3d_eq` / `C11.holo_sum_eq` / `C11.holo_mean_eq` cell [t][a][c] of the full output is the sum of the
+      -- entries with row t and column `foldIdx L1 (c+1) (a+1)`, and the squashed outputs are its time sum / mean.
       let some energy := parseMode o | return "bad-op"
       let some squash := o.str? "squash" | return "bad-op"
       let some e1 := o.vec? 0 | return "bad-op"
@@ -351,6 +355,10 @@ def handle (o : Op) : Option String :=
       let rows := (List.zip F1 (List.zip F2 A2)).map fun x => (⟨x.1, x.2.1, x.2.2⟩ : HoloRow)
       let na := e2.length - 1
       let nc := e1.length - 1
+      if o.name = "HOLOCOO" then
+        let coo := holoCoo e1 e2 energy rows
+        if !inShape T (holoCols e1 e2) coo then return "err ValueError"
+        return s!"ok T={T} na={na} nc={nc} L1={e1.length} nnz={coo.length} | {fmtNats (coo.map (·.row))} | {fmtNats (coo.map (·.col))} | {fmtVec (coo.map (·.val))}"
       if squash = "none" then
         return s!"ok T={T} na={na} nc={nc} | {fmtVec ((holo3d e1 e2 energy rows).map List.flatten).flatten}"
       else if squash = "sum" then
